@@ -28,19 +28,32 @@ class FileManager:
 
         zlines = zpage.read_text().split("\n")
         in_note = False
+        found_note = False
         start_idx = len(zlines) - 1
         for i, line in enumerate(zlines):
             if line.startswith(("- ", "o ", "~ ", "x ", "< ", "> ")):
                 in_note = True
+                found_note = True
             if in_note and line.strip() == "":
                 in_note = False
                 start_idx = i
-        end_idx = start_idx + 1
-        new_zlines = (
-            zlines[:start_idx]
-            + note.to_string().split("\n")
-            + zlines[end_idx:]
-        )
+        note_lines = note.to_string().split("\n")
+        if zlines[start_idx].strip() != "":
+            # The page does not end with a newline: there is no blank line that
+            # the note can take the place of, so append the note instead.
+            new_zlines = zlines[: start_idx + 1] + note_lines
+        elif (
+            not found_note
+            and start_idx > 0
+            and zlines[start_idx - 1].strip() != ""
+        ):
+            # A page that only has a header so far: keep an empty line between
+            # the header and the first note.
+            new_zlines = zlines[: start_idx + 1] + note_lines
+        else:
+            new_zlines = (
+                zlines[:start_idx] + note_lines + zlines[start_idx + 1 :]
+            )
         new_zcontents = "\n".join(new_zlines)
         zpage.write_text(new_zcontents)
         return None
